@@ -93,6 +93,16 @@ func genCase(t *rapid.T) (Case, *env.Env) {
 	return c, e
 }
 
+// safeDecrypt turns a panic of the decryptor (sample auxiliary information that points outside the sample) into an error
+func safeDecrypt(sg *mp4.MediaSegment, di mp4.DecryptInfo, key []byte) (err error) {
+	defer func() {
+		if p := recover(); p != nil {
+			err = fmt.Errorf("decryptor panicked: %v", p)
+		}
+	}()
+	return mp4.DecryptSegment(sg, di, key)
+}
+
 // ---- CPIX (own reading) ----------------------------------------------------------------------
 
 type cpixKey struct {
@@ -305,7 +315,9 @@ func checkCase(c Case, e *env.Env) (*hx.Violation, info) {
 	if err != nil {
 		return hx.V("harness", "clear segment: %v", err), inf
 	}
-	ef, err := mp4.DecodeFileSR(bits.NewFixedSliceReader(er.Body))
+	// decoded together with its init segment: without the init's tenc box the decoder has to guess the per-sample IV size
+	// of every senc box, and a guess can come out wrong (it then reads IV bytes as subsample sizes)
+	ef, err := mp4.DecodeFileSR(bits.NewFixedSliceReader(append(append([]byte{}, ir.Body...), er.Body...)))
 	if err != nil {
 		return hx.V("segment-unparsable", "%s: %v", eurl, err), inf
 	}
@@ -328,7 +340,7 @@ func checkCase(c Case, e *env.Env) (*hx.Violation, info) {
 	}
 	var dec []mp4x.Sample
 	for _, sg := range ef.Segments {
-		if err := mp4.DecryptSegment(sg, di, key); err != nil {
+		if err := safeDecrypt(sg, di, key); err != nil {
 			return hx.V("decrypt-error", "%s: %v", eurl, err), inf
 		}
 		for _, fr := range sg.Fragments {
